@@ -187,8 +187,10 @@ def baseline_ok(work, dst):
     junit = os.path.join(dst, "junit.xml")
     tmp = os.path.join(dst, "tmp")
     os.makedirs(tmp, exist_ok=True)
+    # only the 43 stable-pass tests (the other tests need the network), stopping at the first failure
+    ids = [t.split("::")[0].replace(".", "/") + ".py::" + t.split("::", 1)[1] for t in base["stable_pass"] if "parallelroads" not in t]
     subprocess.run(["/venv/bin/python", "-m", "pytest", "-q", "-p", "no:cacheprovider", "--timeout=300", "-x",
-                    "--continue-on-collection-errors", f"--junitxml={junit}"], cwd=work,
+                    f"--junitxml={junit}"] + ids, cwd=work,
                    stdout=subprocess.DEVNULL, stderr=subprocess.DEVNULL, env=dict(os.environ, PYTHONPATH=work))
     ok = set()
     try:
